@@ -2,10 +2,11 @@ package main
 
 import (
 	"context"
-	"strings"
 	"encoding/json"
 	"fmt"
 	"math/rand"
+	"os"
+	"strings"
 	"time"
 
 	ipfslog "berty.tech/go-ipfs-log"
@@ -30,7 +31,7 @@ func init() {
 		Run:         c04Run,
 		MinDistinct: map[string]int{"quick": 80, "thorough": 250},
 		Batch:       15,
-		Explain:     "oracle: if content hash != claimed hash, or signature invalid for content, or log id != database address, then neither the claimed nor the true hash is in the replica's log after rest, and the replica's previous entries, heads and view are unchanged (apart from honest entries delivered alongside / the marker). Mutations for which no clause applies are counted as unclassified-acceptable and not judged.",
+		Explain:     "oracle: if content hash != claimed hash, or signature invalid for content, or log id != database address, then neither the claimed nor the true hash is in the replica's log after rest, and the replica's previous entries, heads and view are unchanged (apart from honest entries delivered alongside / the marker); the membership oracle is repeated after the replica was closed, reopened and loaded from its cached heads. Mutations for which no clause applies are counted as unclassified-acceptable and not judged.",
 	})
 }
 
@@ -128,7 +129,9 @@ var c04Mutations = []mutation{
 		}
 	}},
 	// alternative spellings of the replica's own address: equal after lenient parsing, different as strings
-	{"logid.no-prefix", func(m *entry.Entry, x *c04Ctx, r *rand.Rand, v int) { m.LogID = strings.TrimPrefix(m.LogID, "/orbitdb/") }},
+	{"logid.no-prefix", func(m *entry.Entry, x *c04Ctx, r *rand.Rand, v int) {
+		m.LogID = strings.TrimPrefix(m.LogID, "/orbitdb/")
+	}},
 	{"logid.trailing-slash", func(m *entry.Entry, x *c04Ctx, r *rand.Rand, v int) { m.LogID = m.LogID + "/" }},
 	{"logid.double-slash", func(m *entry.Entry, x *c04Ctx, r *rand.Rand, v int) {
 		m.LogID = strings.Replace(m.LogID, "/orbitdb/", "/orbitdb//", 1)
@@ -217,7 +220,11 @@ func c04Run(c fw.Case) fw.Verdict {
 		}
 		return p
 	}
-	C, W2, R := mk(), mk(), mk()
+	C, W2 := mk(), mk()
+	R, err := e.W.AddPeer(sim.PeerOpts{OnDisk: true})
+	if err != nil {
+		return fw.Verdict{Status: fw.Inconclusive, What: err.Error()}
+	}
 	A, err := NewAdv(e.W, "mallory")
 	if err != nil {
 		return fw.Verdict{Status: fw.Inconclusive, What: err.Error()}
@@ -331,7 +338,7 @@ func c04Run(c fw.Case) fw.Verdict {
 		_ = sR.Sync(ctx, []ipfslog.Entry{m})
 		delivered = true
 	case "ancestor":
-		col, err := HonestEntry(C, db.Addr, opPayload(typ, 60, "c"), []cid.Cid{m.Hash}, nil, maxT+10)
+		col, err := HonestEntry(C, db.Addr, opPayload(typ, 60, "c"), append([]cid.Cid{m.Hash}, heads...), nil, maxT+10)
 		if err != nil {
 			return fw.Verdict{Status: fw.Inconclusive, What: "colluder: " + err.Error()}
 		}
@@ -343,6 +350,45 @@ func c04Run(c fw.Case) fw.Verdict {
 	}
 	if !e.W.Flush() {
 		return fw.Verdict{Status: fw.Inconclusive, What: "rest not reached after delivery", Sig: v.Sig}
+	}
+	if clause != "" {
+		// the same must hold after the replica restarts and loads its log from its cached heads
+		R.Stop()
+		e.W.Settle()
+		if err := R.Start(); err == nil {
+			octx, ocancel := context.WithTimeout(bg, 20*time.Second)
+			s2, err := R.DB.Open(octx, db.Addr, &iface.CreateDBOptions{})
+			ocancel()
+			if err == nil {
+				R.Track(s2)
+				sR = s2
+				lerr := s2.Load(bg, -1)
+				e.W.Flush()
+				if os.Getenv("VERIF_VERBOSE") != "" {
+					fmt.Fprintf(os.Stderr, "after restart: load err=%v entries=%d cache=%.300s\n   mutated=%s true=%s\n", lerr, s2.OpLog().Len(), cacheHeads(s2), m.Hash, trueHash)
+				}
+				v.Count("must_reject_checks_after_restart", 1)
+				for _, h := range []cid.Cid{m.Hash, trueHash} {
+					got, ok := s2.OpLog().Get(h)
+					if !ok {
+						for _, en := range s2.OpLog().Values().Slice() {
+							if en.GetHash().Equals(h) {
+								got, ok = en, true
+							}
+						}
+					}
+					if !ok || (sameContent(got, target) && !sameContent(got, m)) {
+						continue
+					}
+					return fw.Verdict{Status: fw.Violated, Key: "merged-after-restart/" + clause + "/" + mut, NonTrivial: true, Sig: v.Sig,
+						What: fmt.Sprintf("after the replica was closed, reopened and loaded, the mutated entry (%s, hash %s, route %s; violates clause %q) is in its log", mut, mode, route, clause)}
+				}
+				sn2 := TakeSnap(typ, s2, R.Idx)
+				if ModelView(typ, sn2.Entries, sn2.Order) != sn2.View {
+					return fw.Verdict{Status: fw.Violated, Key: "view-affected-after-restart/" + mut, NonTrivial: true, Sig: v.Sig, What: "view is not the replay of the log after restart"}
+				}
+			}
+		}
 	}
 	// ---- marker ----
 	mop, err := ApplyOp(bg, sC, honestOp(typ, 300))
